@@ -37,7 +37,7 @@ pub mod xmltree;
 
 pub fn for_property(p: &str) -> Vec<Suite> {
     match p {
-        "C09" => c09::suites().into_iter().chain(c09lex::suites()).collect(),
+        "C09" => c09::suites().into_iter().chain(c09lex::suites()).chain(c09lex::stored_suites().into_iter().filter(|s| s.modelled)).collect(),
         "C10" => c10::suites(),
         "C16" => c16::suites(),
         "C18" => c18::suites(),
@@ -47,7 +47,7 @@ pub fn for_property(p: &str) -> Vec<Suite> {
         "C06" => c06::suites(),
         "C08" => c08::suites(),
         "C21" => c21::suites(),
-        "C26" => c26::suites(),
+        "C26" => c26::suites().into_iter().chain(c09lex::stored_suites()).collect(),
         "C12" => c12::suites_c12(),
         "C13" => c12::suites_c13(),
         "C14" => c12::suites_c14(),
